@@ -295,7 +295,9 @@ PostitionedPart = typ.Tuple[int, int, str]
 
 
 def _iter_part_patterns(pattern: str) -> typ.Iterator[typ.Tuple[SortKey, PostitionedPart]]:
-    used_fields: typ.Set[str] = set()
+    # every emitted group is recorded (not just every field), so that
+    # the numeric suffix of a repeated field is unique within the pattern
+    used_fields: typ.List[str] = []
     for part_name, part_pattern in PART_PATTERNS.items():
         end_idx = 0
         while True:
@@ -308,7 +310,7 @@ def _iter_part_patterns(pattern: str) -> typ.Iterator[typ.Tuple[SortKey, Postiti
                 named_part_pattern = f"(?P<{field}_{len(used_fields)}>{part_pattern})"
             else:
                 named_part_pattern = f"(?P<{field}>{part_pattern})"
-            used_fields.add(field)
+            used_fields.append(field)
 
             end_idx         = start_idx + len(part_name)
             sort_key        = (-end_idx, -len(part_name))
